@@ -90,6 +90,11 @@ def main():
     build_out = ''
     # theorems of other property modules that this property also rests on: built and audited with it
     also = list(getattr(mod, 'ALSO_THEOREMS', []))
+    if a.tier == 'thorough':
+        # modules whose kernel evaluation is too slow for every change (decided tables): built and audited in the thorough tier only
+        for m in getattr(mod, 'THOROUGH_MODULES', []):
+            rel = m.replace('.', '/') + '.lean'
+            also.append((m, [n for n, _ in theorems_of(rel)] if os.path.exists(os.path.join(LEAN, rel)) else []))
     with Lock('build'):
         ok, msg = translate()
         if not ok:
@@ -151,7 +156,7 @@ def main():
     leanchecker = None
     if not broken and a.tier == 'thorough':
         # independent re-check of the compiled property module by Lean's external checker
-        rc, lout = run(['lake', 'env', 'leanchecker', lean_module], cwd=LEAN, timeout=3000)
+        rc, lout = run(['lake', 'env', 'leanchecker', lean_module] + [m for m in getattr(mod, 'THOROUGH_MODULES', [])], cwd=LEAN, timeout=6000)
         leanchecker = 'ok' if rc == 0 and not lout.strip() else lout.strip()[-300:]
         if leanchecker != 'ok':
             broken.append(('leanchecker', leanchecker))
